@@ -3,7 +3,7 @@
 # every demo of the same delivery against the changed binary (all must pass: the change keeps the behaviours the demos probe). Prints one summary line.
 WT="$1"; N="$2"; M="$WT/mutants"; export CARGO_NET_OFFLINE=true
 cd "$WT" || exit 2
-git checkout -q -- src 2>/dev/null
+git checkout -q -- src 2>/dev/null; git clean -fdq src 2>/dev/null
 if ! git apply --check "$M/b$N.diff" 2>/dev/null; then echo "$WT b$N: DIFF-DOES-NOT-APPLY"; exit 1; fi
 git apply "$M/b$N.diff"
 B=$(cargo build --offline 2>&1 | tail -1 | sed 's/ target(s).*//')
@@ -11,6 +11,6 @@ T=$(cargo test --workspace --no-fail-fast --offline 2>&1 | grep -E "^test result
 cp target/debug/zinoma /tmp/confirm-bin-$$-b
 R=""
 for d in "$M"/m*_demo.sh; do timeout -s KILL 120 bash "$d" /tmp/confirm-bin-$$-b >/dev/null 2>&1; R="$R $(basename $d .sh)=$?"; done
-git checkout -q -- src
+git checkout -q -- src; git clean -fdq src
 rm -f /tmp/confirm-bin-$$-b
 echo "$WT b$N: build[$B] tests[$T] demos[$R ]"
